@@ -1460,10 +1460,11 @@ func (sc *serverConn) closeStream(st *stream, err error) {
 	delete(sc.streams, st.id)
 	if p := st.body; p != nil {
 		// Return the connection-level flow control of the bytes that are
-		// buffered but were never read by the handler. Nobody will read
-		// them any more, and without this the connection window shrinks
-		// for good with every request whose body is not consumed.
-		sc.sendWindowUpdate(nil, p.Len())
+		// buffered but were never read by the handler, and drop them: without
+		// this the connection window shrinks for good with every request
+		// whose body is not consumed, and a handler that still read them
+		// afterwards would have them given back a second time.
+		sc.sendWindowUpdate(nil, p.DiscardWithError(err))
 
 		p.CloseWithError(err)
 		if st.defaultStreamWindow() {
